@@ -49,6 +49,11 @@ def run(tier, seed, t0, only=None):
         bs = [g for g in bs if any(g['id'].startswith(o) for o in only)]
     obs = attrrun.run(gs, ('C13',)) if gs else []
     obs += binrun.run(bs, ('C13',)) if bs else []
+    from ..mirsym import sercheck
+    ws = bingroups.c13_ser_groups(tier)
+    if only:
+        ws = [g for g in ws if any(g['id'].startswith(o) for o in only)]
+    obs += binrun.run(ws, ('C13',), module=sercheck) if ws else []
     obs += K.run_harnesses(hs, tier) if hs else []
     return C.finish('C13', tier, seed, obs, t0, ASSUMPTIONS + ASSUMPTIONS_M, TRUSTED + ['rustc nightly MIR of rbx_types; vlib/mirsym interpreter with Read/Write cursor models; z3'], RULE)
 
